@@ -918,6 +918,30 @@ done:
 
 /*--------------------------------------------------------------------------
  NAME
+    HCIundo_staccess -- Take back what HCIstaccess registered
+ USAGE
+    void HCIundo_staccess(access_rec, aid)
+    accrec_t *access_rec;   IN: the access record of the data element
+    int32 aid;              IN: the access id HCIstaccess returned
+ DESCRIPTION
+    Called when the modeling layer cannot be started after HCIstaccess has
+    succeeded: the caller (Hstartaccess) releases the access record, so the
+    record must not stay registered nor counted in 'attach'.
+--------------------------------------------------------------------------*/
+static void
+HCIundo_staccess(accrec_t *access_rec, int32 aid)
+{
+    filerec_t *file_rec = HIfid2rec(access_rec->file_id);
+
+    HAremove_atom(aid);
+    if (!BADFREC(file_rec) && file_rec->attach > 0)
+        file_rec->attach--;
+    free(access_rec->special_info);
+    access_rec->special_info = NULL;
+} /* end HCIundo_staccess() */
+
+/*--------------------------------------------------------------------------
+ NAME
     HCPstread -- Start read access on a compressed data element.
  USAGE
     int32 HCPstread(access_rec)
@@ -936,8 +960,10 @@ HCPstread(accrec_t *access_rec)
     if ((ret_value = HCIstaccess(access_rec, DFACC_READ)) == FAIL)
         HGOTO_ERROR(DFE_DENIED, FAIL);
     info = (compinfo_t *)access_rec->special_info;
-    if ((*(info->minfo.model_funcs.stread))(access_rec) == FAIL)
+    if ((*(info->minfo.model_funcs.stread))(access_rec) == FAIL) {
+        HCIundo_staccess(access_rec, ret_value);
         HGOTO_ERROR(DFE_MODEL, FAIL);
+    }
 
 done:
     return ret_value;
@@ -963,8 +989,10 @@ HCPstwrite(accrec_t *access_rec)
     if ((ret_value = HCIstaccess(access_rec, DFACC_WRITE)) == FAIL)
         HGOTO_ERROR(DFE_DENIED, FAIL);
     info = (compinfo_t *)access_rec->special_info;
-    if ((*(info->minfo.model_funcs.stwrite))(access_rec) == FAIL)
+    if ((*(info->minfo.model_funcs.stwrite))(access_rec) == FAIL) {
+        HCIundo_staccess(access_rec, ret_value);
         HGOTO_ERROR(DFE_MODEL, FAIL);
+    }
 
 done:
     return ret_value;
